@@ -18,15 +18,16 @@ type OrderKey struct {
 }
 
 type C05Case struct {
-	Doc      map[string]any `json:"doc"`
-	Cols     []string       `json:"cols,omitempty"` // select list (empty = *)
-	Where    *sq.E          `json:"where,omitempty"`
-	Keys     []OrderKey     `json:"keys,omitempty"`
-	HasLimit bool           `json:"has_limit,omitempty"`
-	Limit    int            `json:"limit,omitempty"`
-	Offset   int            `json:"offset,omitempty"`
-	Spelling string         `json:"spelling,omitempty"` // "limit" | "limit-offset" | "comma"
-	Distinct bool           `json:"distinct,omitempty"` // SELECT DISTINCT: the window applies to the de-duplicated sequence
+	Doc      map[string]any    `json:"doc"`
+	Cols     []string          `json:"cols,omitempty"` // select list (empty = *)
+	Where    *sq.E             `json:"where,omitempty"`
+	Keys     []OrderKey        `json:"keys,omitempty"`
+	HasLimit bool              `json:"has_limit,omitempty"`
+	Limit    int               `json:"limit,omitempty"`
+	Offset   int               `json:"offset,omitempty"`
+	Spelling string            `json:"spelling,omitempty"` // "limit" | "limit-offset" | "comma"
+	Distinct bool              `json:"distinct,omitempty"`
+	GoTypes  map[string]string `json:"go_types,omitempty"` // numeric columns handed over as native Go values of that type // SELECT DISTINCT: the window applies to the de-duplicated sequence
 }
 
 func init() {
@@ -87,6 +88,7 @@ func genC05(t *rapid.T) any {
 		}
 	}
 	c.Distinct = rapid.IntRange(0, 3).Draw(t, "distinct") == 0
+	c.GoTypes = genGoTypes(t, tb.Cols, "gotypes")
 	if rapid.IntRange(0, 3).Draw(t, "haslimit") != 0 {
 		c.HasLimit = true
 		n := len(tb.Rows)
@@ -206,7 +208,7 @@ func checkC05(c *C05Case) Result {
 	}
 	res.Labels = dedup(res.Labels)
 
-	u := Run(val.CopyMap(c.Doc), c.sql(false, false), Opts{})
+	u := Run(typedDoc(c.Doc, map[string]map[string]string{"t": c.GoTypes}), c.sql(false, false), Opts{})
 	res.Execs++
 	if !u.OK() || diffRows(u.Rows, wantU) != "" {
 		res.Violation = fmt.Sprintf("unordered result wrong: %s\n  expected %s\n  got %s", c.sql(false, false), val.JSON(wantU), u.Describe())
@@ -215,7 +217,7 @@ func checkC05(c *C05Case) Result {
 	s := u
 	outOfOrder := false
 	if len(c.Keys) > 0 {
-		s = Run(val.CopyMap(c.Doc), c.sql(true, false), Opts{})
+		s = Run(typedDoc(c.Doc, map[string]map[string]string{"t": c.GoTypes}), c.sql(true, false), Opts{})
 		res.Execs++
 		if !s.OK() {
 			res.Violation = fmt.Sprintf("%s\n  got %s", c.sql(true, false), s.Describe())
@@ -259,7 +261,7 @@ func checkC05(c *C05Case) Result {
 	}
 	straddle := false
 	if c.HasLimit {
-		l := Run(val.CopyMap(c.Doc), c.sql(true, true), Opts{})
+		l := Run(typedDoc(c.Doc, map[string]map[string]string{"t": c.GoTypes}), c.sql(true, true), Opts{})
 		res.Execs++
 		if !l.OK() {
 			res.Violation = fmt.Sprintf("%s (over %d rows)\n  got %s", c.sql(true, true), len(s.Rows), l.Describe())
